@@ -4,9 +4,10 @@ from .c01 import direct_part
 from .base import Result
 import random
 
-MODULES = ["TickitModel.Props.C02"]
+MODULES = ["TickitModel.Props.C02", 'TickitModel.Props.AnyTransferC02']
 THEOREMS = ["input_iff_root_or_changed", "input_changes_exact", "skip_answers_nothing", "untouched_outside_extent",
-            "tick_deterministic", "routerOK_of_wf", "changed_iff", "merge_lookup", "onTick_state"]
+            "tick_deterministic", "routerOK_of_wf", "changed_iff", "merge_lookup", "onTick_state",
+            'any_order_trace_exists', 'any_order_input_iff_root_or_changed', 'any_order_same_dispatch', 'any_order_dispatched_iff', 'any_order_dispatch_time', 'any_order_same_updates']
 ANCHORS = ["src/tickit/core/management/ticker.py", "src/tickit/core/management/event_router.py",
            "src/tickit/core/components/device_component.py", "src/tickit/core/management/schedulers/base.py"]
 TECHNIQUE = "Lean 4 theorems (tick equations: Input iff root or a wired input changed, Input.changes = exactly the routed values, change detection = differs from previous report; all wirings, roots, answer orders) + trace validation of real Tickers and DeviceComponents against the model"
@@ -15,7 +16,7 @@ LEVEL_TEXT = ("Full-strength theorems over the ticker/device model for every wir
               "tick, otherwise a Skip; the Input carries exactly the routed values; nothing outside the extent is touched; a port is in Output.changes "
               "iff it is reported and absent from or different in the previous report. Tied to ticker.py / device_component.py by the per-Ticker "
               "acceptor (direct driving with all answer orders + whole simulations) and by comparing every Output message with the model's change "
-              "detection over histories where ports change, repeat and disappear.")
+              "detection over histories where ports change, repeat and disappear. FOR ANY ANSWER ORDER AT EVERY NESTING LEVEL (every scheduler level answers its pending dispatches in ANY order, a system component's answer is any such execution of its inner level; Core/SimAny; none of these corollaries assumes that the first-in first-out model succeeds - that follows from the existence of the execution) (Props/AnyTransferC02): on the ticker trace of every level of every execution a component receives an Input iff it is a root or one of its wired ports was reported changed in this tick, a Skip otherwise, nothing if it is not downstream of a root (any_order_input_iff_root_or_changed, any_order_dispatched_iff), and a component at any depth receives an equivalent dispatch in every execution (any_order_same_dispatch, any_order_same_updates).")
 LEVEL_NOTE = "Trusts: Lean kernel; hand-written ticker/device models (tied by acceptor and differential run); Python dict equality for change detection (values are ints in the runs)."
 ASSUMPTIONS = ["each input port has one source", "device outputs are mappings with hashable values compared by =="]
 MON = ("ticker", "change_detection", "device_order", "system_output")
